@@ -228,6 +228,16 @@ impl BootstrapCacheStore {
             Error::FailedToParseCacheData
         })?;
 
+        // A cache file written for another network is foreign to us: it is ignored, not merged.
+        let our_network_version = crate::get_network_version();
+        if data.network_version != our_network_version {
+            warn!(
+                "Network version mismatch in cache file. Expected: {our_network_version}, got: {}. Ignoring.",
+                data.network_version
+            );
+            return Err(Error::FailedToParseCacheData);
+        }
+
         data.perform_cleanup(cfg);
 
         Ok(data)
